@@ -6,6 +6,7 @@ import (
 	"encoding/json"
 	"errors"
 	"fmt"
+	"log/slog"
 	"net/http/httptest"
 	"net/url"
 	"sort"
@@ -373,7 +374,20 @@ func (in *Instance) reload(spec *Config) error {
 		}
 		return d + wait()
 	}
-	pipeline := in.pbuilder.New(receivers, wait, newInh, in.silencer, intervener, in.gmarker, in.nflog, peer)
+	var pipeline notify.Stage = in.pbuilder.New(receivers, wait, newInh, in.silencer, intervener, in.gmarker, in.nflog, peer)
+	// note when each flush hands its alerts to the pipeline (= the start of the flush, per instance: the global hook
+	// point flush.enter does not say which instance flushes)
+	inner := pipeline
+	idx := in.idx
+	pipeline = notify.StageFunc(func(ctx context.Context, l *slog.Logger, as ...*alert.Alert) (context.Context, []*alert.Alert, error) {
+		pe := PipelineEnter{Inst: idx, At: time.Now()}
+		pe.AggrGroupID, _ = notify.AggrGroupID(ctx)
+		pe.FlushID, _ = notify.FlushID(ctx)
+		in.sim.mtx.Lock()
+		in.sim.trace.PipelineEnters = append(in.sim.trace.PipelineEnters, pe)
+		in.sim.mtx.Unlock()
+		return inner.Exec(ctx, l, as...)
+	})
 	in.api.Update(conf, func(ctx context.Context, labels model.LabelSet) {
 		in.inh.Mutes(ctx, labels)
 		in.silencer.Mutes(ctx, labels)
